@@ -276,6 +276,7 @@ int cs_vector_on_cal;
 
 int cs_param_fillers;
 int cs_real_scalars;
+int cs_ident_priors;
 
 int cs_make_params(vnacal_t *vcp, cs_scenario *sc)
 {
@@ -888,12 +889,32 @@ int cs_identifiable(const cs_scenario *sc, unsigned mask,
 		upar[nu++] = q;
 	}
     }
+    /* with cs_ident_priors the ties of correlated parameters are counted
+       as equations (libvna adds one row per correlated parameter): unknown
+       parameters that are only referred to as `other' join the unknowns */
+    int nu_measured = nu;
+    if (cs_ident_priors) {
+	for (int i = 0; i < nu_measured; ++i) {
+	    int o;
+	    if (sc->param[upar[i]].kind != CSP_CORRELATED)
+		continue;
+	    o = sc->param[upar[i]].other;
+	    if (o < 0 || (sc->param[o].kind != CSP_UNKNOWN &&
+			sc->param[o].kind != CSP_CORRELATED))
+		continue;
+	    bool seen = false;
+	    for (int j = 0; j < nu; ++j)
+		if (upar[j] == o) seen = true;
+	    if (!seen)
+		upar[nu++] = o;
+	}
+    }
     int ucol = ncols;
     ncols += nu;
     need += nu;
     *unknowns += nu;
 
-    int maxrows = CS_MAXSTD * NS;
+    int maxrows = CS_MAXSTD * NS + CS_MAXPARAM;
     lc_t *J = calloc((size_t)maxrows * (size_t)ncols, sizeof(lc_t));
     int nrows = 0;
     int eqs_sys[CS_MAXP] = { 0 };
@@ -986,6 +1007,21 @@ int cs_identifiable(const cs_scenario *sc, unsigned mask,
 	    }
 	}
 	nrows += nus;
+    }
+    if (cs_ident_priors) {
+	/* one row per correlated parameter: c - other = 0, in units of a
+	   measurement (the row is as good as a reading of the difference) */
+	for (int i = 0; i < nu; ++i) {
+	    int o;
+	    if (sc->param[upar[i]].kind != CSP_CORRELATED)
+		continue;
+	    o = sc->param[upar[i]].other;
+	    J[(size_t)nrows * (size_t)ncols + (size_t)(ucol + i)] = 1;
+	    for (int j = 0; j < nu; ++j)
+		if (upar[j] == o)
+		    J[(size_t)nrows * (size_t)ncols + (size_t)(ucol + j)] = -1;
+	    ++nrows;
+	}
     }
     for (int sys = 0; sys < v->nsys; ++sys)
 	if (eqs_sys[sys] < min_eq)
